@@ -85,8 +85,14 @@ def texts_of(doc, seeds):
     for j, s in enumerate(seeds):
         lt, li = docprop.render_case(doc, {"k": "len", "seed": s, "level": [0.4, 0.8][j % 2]})
         out.append((f"lenient-{s}", lt, li))
-    # a repeated META key: the reader keeps one value, so the canonical text carries the key once
+    # the document without its envelope lines and with a blank after every `::` (both accepted spellings: the reader infers the
+    # envelope; only used for documents without literal zones or multi-line strings, where a line is what it looks like)
     lines = ct.split("\n")
+    if doc.get("frontmatter") is None and doc.get("sentinel") is None and "```" not in ct and '"""' not in ct and lines[0].startswith("===") and lines[-2:] == ["===END===", ""]:
+        body = [re.sub(r"^(\s*[A-Za-z_][A-Za-z0-9_.\-]*)::(?=\S)", r"\1:: ", ln) for ln in lines[1:-2]]
+        if any(":: " in ln for ln in body):
+            out.append(("no-envelope-blank-after-assign", "\n".join(body) + "\n", ci))
+    # a repeated META key: the reader keeps one value, so the canonical text carries the key once
     if "META:" in lines:
         mi = lines.index("META:")
         simple = [j for j in range(mi + 1, len(lines)) if lines[j].startswith("  ") and not lines[j].startswith("   ") and "::" in lines[j]
